@@ -223,7 +223,7 @@ class Motion(Case):
 
     def inputs(self, mk):
         p = self.params
-        specs = [shell_spec(mk, "ABCD"[i], l, K, M) for i, (l, K, M) in enumerate(zip(p["ls"], p["Ks"], p["Ms"]))]
+        specs = cm.specs_from(mk, p)
         R, d, det = _rot(mk, p)
         Pm = None
         if p["module"] in FIELDS:
